@@ -280,7 +280,7 @@ theorem fail_sends_no_appdata (env : Env K) (child : Child) (s : St K) (c : K.σ
     simp only [hside, htls]
     rw [hh]
     simp only [onHandshakeError, hside, handshakeFinished, emit, setSt, hr, if_true, Bool.or_true,
-      eventToChild, he, Bool.false_eq_true, if_false]
+      eventToChild, etcCore, queueing, isEst, addRouted, he, Bool.false_eq_true, if_false]
     simp
   rw [hstep]
   have htc : ∀ t : St K, (deliver child t (.opened true)).toChild = t.toChild ++ [.opened true] := by
